@@ -3,6 +3,7 @@ package main
 import (
 	"time"
 
+	"verifsim/c15"
 	"verifsim/c17"
 	"verifsim/c20"
 )
@@ -36,6 +37,20 @@ func init() {
 				"'the import-managed print of that file' is Restorer.Fprint of an independently constructed twin tree with a fresh restorer per file",
 				"a lying disk (silently lost or misdirected writes) is not simulated; whether later files are attempted after a write error is not demanded",
 				"crash atomicity of Save is not promised by C20 and not checked",
+			},
+		}
+	}})
+	register(&Engine{Prop: "C15", Run: c15.Run, Watchdog: 300 * time.Second, Info: func() map[string]interface{} {
+		return map[string]interface{}{
+			"rule": "one run = one stored source (embedded corpus of 133 real/edge-case files or a generated file) and one fault mode: exhaustive truncation at every byte offset (sources <= 3000 bytes), reader errors at ~64 offsets plus (n>0, EOF) readers, writer errors at ~48 offsets, or 24 tape-sampled inputs with 1-3 composed storage faults (truncate, bitflip, zero/garbage/drop/dup/swap range, syntax byte); each faulted input goes through one of 7 parse entry points and every tree returned through every printer. " +
+				"evaluations = faulted inputs parsed; a case is (input bytes hash, entry point, parser mode, FileSet preload, stream fault) and is non-trivial when the bytes differ from the stored source or a stream fault is armed; distinct by 64-bit hash over all processes.",
+			"real": []string{"decorator.Parse / ParseFile / ParseDir / DecorateFile / Decorator with imports", "decorator.Fprint / RestoreFile / Restorer(imports).Fprint / Restorer(Extras)", "goast + guess resolvers", "go/parser", "go/format"},
+			"stub": []string{"faulty io.Reader / io.Writer", "storage-fault transformer over the stored bytes"},
+			"not_run": []string{"decorator.Load", "decorator.Print (stdout)"},
+			"assumptions": []string{
+				"partial claim: only inputs derivable from the corpus by storage faults and run-time stream failures are covered, not arbitrary byte strings",
+				"'erroneous input' is decided by go/parser on the same bytes and mode, independently of dst",
+				"nothing is demanded of the content printed for broken input",
 			},
 		}
 	}})
